@@ -220,7 +220,7 @@ func respell(sql string, orig, repl []string) string {
 			sb.WriteByte(' ')
 		}
 		sb.WriteString(repl[i])
-		if pos < len(sql) && (isWordByte(sql[pos]) || sql[pos] == '`' || sql[pos] == '"' || sql[pos] == '\'' || sql[pos] >= 0x80) {
+		if pos < len(sql) && (isWordByte(sql[pos]) || sql[pos] == '`' || sql[pos] == '"' || sql[pos] == '\'' || sql[pos] == '?' || sql[pos] >= 0x80) {
 			sb.WriteByte(' ')
 		}
 	}
@@ -318,7 +318,7 @@ func newRec() *ev.Rec {
 			"grammar: statements from a text-producing grammar generator (depth <= 3, random keyword case, optional blanks): SELECT [DISTINCT] items (expr [AS] alias / 'string alias', *, t.*, expr->*) FROM table refs (names, paths like ./f.json and a/b.csv, quoted names, aliases, index hints, subqueries, parenthesised lists, table valued functions with name=>expr / name=>TABLE(ref) / name=>DESCRIPTOR(col) arguments and [AS] alias, [LOOKUP|STREAM] [INNER|CROSS] JOIN, LEFT/RIGHT [OUTER]/OUTER JOIN, NATURAL joins, STRAIGHT_JOIN, ON / USING), WHERE, GROUP BY, HAVING, TRIGGER lists (COUNTING e, ON WATERMARK, ON END OF STREAM, AFTER DELAY e), ORDER BY, LIMIT forms, WITH (1-2 CTEs), UNION forms; expressions: literals (ints beyond int64, floats, strings with quotes/backslashes/tab/newline, hex, bit, ?), columns with qualifiers, arithmetic/bit operators, unary - + ~ !, tuples, subqueries, INTERVAL e unit, function calls (DISTINCT, *), e[e], e::type incl. [] and {}, e->field, CASE, CAST/CONVERT, COLLATE, keyword functions, AND/OR/NOT, IS ..., comparisons, [NOT] IN (list|subquery|::), [NOT] LIKE [ESCAPE], ~ ~* !~ !~*, [NOT] REGEXP, [NOT] BETWEEN, EXISTS. "+
 			"corpus_case_exact: every corpus statement with all its words (keywords and identifiers; quoted names, strings, comments untouched) in UPPER, lower, aLtErNaTiNg and Title case (complete); case_variants: a corpus statement (2/3) or a generated one (1/3) with one case style for the statement or an independently drawn style per word - keywords are case-insensitive, so these are statements the parser must treat alike, and the oracle is the same round trip. mutations: (a quarter of the bases re-cased first) 1-3 token-level edits (delete, duplicate, swap, replace by a random token or by one of the same class, insert, splice a stretch of another statement, delete a stretch) of a corpus statement or a generated one, re-joined with or without blanks. Inputs that sqlparser.Parse rejects are discarded (counted in `discarded`). "+
 			"oracle: s2 = String(Parse(s1)) must parse; Parse(s2) must equal Parse(s1) under a reflection walk over every field (exported or not) that ignores only fields named Metadata (analyzer placeholders), ColIdent's lowered cache and blank fields, and identifies nil and empty slices; and String(Parse(s2)) == s2. A panic while printing is a violation. "+
-			"native_fuzz (thorough tier only): go test -fuzz over the statement text, seeded with the corpus; inputs that are not valid UTF-8, longer than 2000 bytes or rejected by the parser are discarded; same oracle. "+
+			"native_fuzz (thorough tier only): go test -fuzz over the statement text, seeded with the corpus; inputs that are not valid UTF-8, longer than 2000 bytes or rejected by the parser are discarded; same oracle, except that while the finding mysql-ddl-set-show-names-printed-raw is listed, failing SHOW/SET/DDL statements that its classifier cannot attribute are excluded coarsely there (counted in class native_fuzz_mysql_statement_excluded_coarsely). "+
 			"non-trivial: the statement uses >= 1 OctoSQL extension (by token kind: TRIGGER and trigger kinds, =>, DESCRIPTOR, LOOKUP, ->, ->*, ::, [], {}, [, ~ ~* !~ !~*, WITH; or by node: STREAM JOIN, OUTER JOIN, TABLE() argument, ON END OF STREAM). distinct = sequence of token kinds of the input",
 		"sqlparser.Parse is the acceptance criterion (it also accepts partially parsed DDL, as octosql's callers get it)",
 		"tree equality is on the parser's own AST; two spellings that the parser maps to one tree (JOIN / INNER JOIN / CROSS JOIN, CAST / CONVERT / ::, create view / create table ...) are the same tree and not distinguished",
@@ -370,7 +370,7 @@ func TestC30(t *testing.T) {
 		}
 		return c30Case{mutate(t, base, other)}
 	}, c30Prop)
-	ev.ReplayOnly(t, rec, "native_fuzz", c30Prop)
+	ev.ReplayOnly(t, rec, "native_fuzz", c30FuzzProp)
 }
 
 var _ = fmt.Sprint
